@@ -4,6 +4,7 @@ import (
 	"encoding/binary"
 	"fmt"
 	"log"
+	"math"
 	"sync"
 
 	"github.com/janelia-flyem/dvid/datastore"
@@ -467,6 +468,14 @@ func (d *Data) GetBlocks(v dvid.VersionID, start dvid.ChunkPoint3d, span int32) 
 
 	// Allocate one uncompressed-sized slice with background values.
 	blockBytes := int32(d.BlockSize().Prod()) * d.Values.BytesPerElement()
+	if span <= 0 {
+		return nil, fmt.Errorf("span of blocks must be positive, got %d", span)
+	}
+	// (positions within the buffer are computed as int32 below)
+	if requestSize := int64(blockBytes) * int64(span); requestSize > server.MaxDataRequest || requestSize > math.MaxInt32 {
+		return nil, fmt.Errorf("requested payload (%d bytes) exceeds this DVID server's set limit (%d)",
+			requestSize, server.MaxDataRequest)
+	}
 	numBytes := blockBytes * span
 
 	buf := make([]byte, numBytes, numBytes)
